@@ -784,6 +784,72 @@ func c15Paced(w *core.W, g *model.Gen, zone model.Name, j int, ixfr bool) {
 	}
 }
 
+// c15SlowConsumer: the consumer of the channel is busy with each envelope for longer than the transfer's
+// ReadTimeout (it writes the records somewhere) while the stream ends early / an envelope arrives that is
+// no answer to the query: whenever the consumer comes back, the error is there - a transfer that was cut
+// short is not reported complete because its consumer was slow.
+func c15SlowConsumer(w *core.W, g *model.Gen, zone model.Name, j int) {
+	for _, ixfr := range []bool{false, true} {
+		for _, fault := range []string{"eof", "eof-mid-frame", "foreign-id"} {
+			var recs []*model.Rec
+			if ixfr {
+				recs = append([]*model.Rec{soaRec(zone, 10), soaRec(zone, 9)}, zoneRecs(g, zone, 3)...)
+			} else {
+				recs = append([]*model.Rec{soaRec(zone, 10)}, zoneRecs(g, zone, 4)...)
+			}
+			cl, sv := netsim.StreamPair()
+			tr := &dns.Transfer{Conn: &dns.Conn{Conn: cl}, ReadTimeout: 40 * time.Millisecond}
+			q := new(dns.Msg)
+			if ixfr {
+				q.SetIxfr(zone.Pres(), 9, "ns.example.", "h.example.")
+			} else {
+				q.SetAxfr(zone.Pres())
+			}
+			q.Id = uint16(9500 + j)
+			ch, err := tr.In(q, "sim")
+			if err != nil {
+				w.Inconclusive("c15-slow-consumer-start:" + err.Error())
+				return
+			}
+			go func() {
+				first := &model.Msg{ID: q.Id, Bits: 0x8400, Q: []model.Question{{Name: zone, Type: q.Question[0].Qtype, Class: 1}}, An: recs[:2]}
+				sv.Write(frame(first.Wire()))
+				second := &model.Msg{ID: q.Id, Bits: 0x8400, Q: first.Q, An: recs[2:]}
+				switch fault {
+				case "eof":
+				case "eof-mid-frame":
+					fr := frame(second.Wire())
+					sv.Write(fr[:len(fr)/2])
+				case "foreign-id":
+					second.ID ^= 0x0101
+					sv.Write(frame(second.Wire()))
+				}
+				sv.Close()
+			}()
+			w.Eval(1)
+			w.Count("slow_consumer_transfers", 1)
+			var terr error
+			n := 0
+			kind := map[bool]string{true: "ixfr", false: "axfr"}[ixfr]
+			if !within(c13Watch, func() {
+				for env := range ch {
+					if env.Error != nil && terr == nil {
+						terr = env.Error
+					}
+					n += len(env.RR)
+					time.Sleep(160 * time.Millisecond) // four read timeouts per envelope
+				}
+			}) {
+				w.Violation("C15/slow-consumer/transfer-does-not-end/"+kind, "the channel was never closed", nil)
+				continue
+			}
+			if terr == nil {
+				w.Violation("C15/fault-hidden/slow-consumer/"+fault+"/"+kind, fmt.Sprintf("the stream ended after the first envelope (fault %s, no closing SOA, %d records delivered) while the consumer was busy for longer than ReadTimeout: the channel was closed without an error envelope", fault, n), map[string]any{"kind": kind, "fault": fault})
+			}
+		}
+	}
+}
+
 // c15FullEnvelopes: a sender that fills envelopes to the brim: the first, a middle or the only
 // envelope is exactly 65535 (or 65534, 65533) octets on the wire.
 func c15FullEnvelopes(w *core.W, g *model.Gen, zone model.Name, j int) {
@@ -868,6 +934,9 @@ func c15Case(w *core.W, j int) {
 	}
 	if j%16 == 3 {
 		c15RealSockets(w, g, zone, j)
+	}
+	if j%16 == 11 {
+		c15SlowConsumer(w, g, zone, j)
 	}
 	s := c15MakeStream(g, zone, j%4)
 	n := len(s.recs)
